@@ -338,7 +338,7 @@ func argsKey(args map[int]labs) string {
 // analyze returns the summary of calling fn in state st. deferredPanicking: fn is a
 // deferred closure run while a panic is unwinding (recover() returns non-nil once).
 func (a *LTA) analyze(fn *ssa.Function, args map[int]labs, st LSt, deferredPanicking bool) *lsummary {
-	key := fmt.Sprintf("%s|%s|%v|%v", fn.String(), argsKey(args), st, deferredPanicking)
+	key := fmt.Sprintf("%s|%s|%s|%v|%v", a.driver, fn.String(), argsKey(args), st, deferredPanicking)
 	if a.inprog[key] || a.roundSeen[key] {
 		return a.memo[key]
 	}
@@ -603,6 +603,11 @@ func (a *LTA) analyze(fn *ssa.Function, args map[int]labs, st LSt, deferredPanic
 						break instrs
 					}
 					if !st.Open {
+						if a.driver == "worker" {
+							// the inbox was stopped earlier in this very activation: reopening it schedules a second
+							// worker while this one is still inside its loop
+							report("inbox-reopened-by-worker", "Inboxer.Start", st, ins.Pos())
+						}
 						st.Open = true
 						st.Worker = true
 					}
